@@ -21,6 +21,7 @@
 
 #include "assert.hpp"
 #include "test_heap.hpp"
+#include "verif_hooks.hpp"
 
 namespace unodb::detail {
 
@@ -67,11 +68,13 @@ template <typename T>
     throw std::bad_alloc{};  // LCOV_EXCL_LINE
   }
 
+  UNODB_DETAIL_VERIF_OBS(mem_alloc, result, size);
   return result;
 }
 
 /// Free heap memory allocated with allocate_aligned().
 inline void free_aligned(void* ptr) noexcept {
+  UNODB_DETAIL_VERIF_OBS(mem_free, ptr, 0);
 #ifndef _MSC_VER
   // NOLINTNEXTLINE(cppcoreguidelines-no-malloc,cppcoreguidelines-owning-memory,hicpp-no-malloc)
   free(ptr);
